@@ -14,6 +14,8 @@ from nutree.fs import FileSystemEntry, FileSystemTree, load_tree_from_fs
 
 ID = "C19"
 LEVEL = "exploration"
+TECHNIQUE = 'property-based testing: generated directory trees materialised on disk, mirror oracle + save/load round trip'
+LEVEL_TEXT = 'exploration: generated directory specs (sort-sensitive names, empty folders, zero-byte files, equal names in several folders, generated mtimes)'
 RULE = (
     "case = (directory spec: nesting <= 4, empty folders, names from a pool with upper/lower case, digits, dots, "
     "dashes, spaces, non-ASCII letters, the same name in several folders, file sizes 0..5000, generated mtimes; "
